@@ -557,7 +557,9 @@ def r07_6_shortcuts(ctx: Ctx) -> RuleResult:
             rr.inst()
             params = {a.arg for a in f.params}
             used = {x.id for c in ctor_calls for a in [*c.args, *[k.value for k in c.keywords]] for x in ast.walk(a) if isinstance(x, ast.Name) and x.id in params}
-            tested = {x.id for x in ast.walk(n.test) if isinstance(x, ast.Name)}
+            from ..kit import inline_locals as _il
+
+            tested = {x.id for x in ast.walk(_il(f.node, n.test)) if isinstance(x, ast.Name)}  # the test may be held in a local
             missing = sorted(used - tested)
             if missing:
                 rr.fail(f.qual, f"the culture's cached default parser is used without testing {missing}: a pattern created with a non-default {missing[0]} silently behaves as the default one", ctx.loc(f, n))
@@ -1297,6 +1299,8 @@ def r07_19_unparsed_fields_come_from_the_template(ctx: Ctx) -> RuleResult:
                     tests.append(unparse(p.test))
                 if isinstance(p, ast.IfExp) and x is p.body:
                     tests.append(unparse(p.test))
+                if isinstance(p, ast.BoolOp) and isinstance(p.op, ast.And) and x in p.values:
+                    tests += [unparse(v_) for v_ in p.values[: p.values.index(x)]]  # `has_any(AM_PM) and ... self._am_pm`
                 x = p
             if not any("AM_PM" in t for t in tests):
                 bad = bad or n
